@@ -364,7 +364,7 @@ class Ctx:
             return None
         for c in r.pattern.get('inner', []) or []:
             if c.get('kind') == 'FieldDecl' and c.get('name') == fname:
-                t = c['type']['qualType']
+                t = c['type'].get('desugaredQualType') or c['type']['qualType']
                 # alias to an array type declared in the pattern?
                 m = re.match(r'^(?:const\s+)?([A-Za-z_][A-Za-z0-9_]*)$', t.strip())
                 if m:
@@ -692,7 +692,15 @@ class FnLower:
         else:
             q = fn['type']['qualType']
             rts = self._return_type_str()
-            base, suffix, isref = self.ctx.ctype(rts)
+            try:
+                base, suffix, isref = self.ctx.ctype(rts)
+            except Unsupported:
+                # alias templates are not desugared inside function type strings: take the type of the
+                # returned expression (clang converts it to the declared return type)
+                rts = self._type_of_returned_expr()
+                if rts is None:
+                    raise
+                base, suffix, isref = self.ctx.ctype(rts)
             if suffix:
                 # reference to array
                 rt = base + ' *'
@@ -720,6 +728,20 @@ class FnLower:
                     head = q[:i].strip()
                     return head
         raise Unsupported('cannot parse function type %s' % q)
+
+    def _type_of_returned_expr(self):
+        def find(n):
+            if not isinstance(n, dict):
+                return None
+            if n.get('kind') == 'ReturnStmt' and n.get('inner'):
+                return type_str(n['inner'][0]['type'])
+            for c in n.get('inner', []) or []:
+                r = find(c)
+                if r:
+                    return r
+            return None
+        b = self.ast.body_of(self.fn)
+        return find(b) if b is not None else None
 
     @staticmethod
     def _is_mptr_type(t):
@@ -1228,6 +1250,19 @@ class FnLower:
         q = self.ast.fn_qname.get(d['id'], nm)
         if nm in ('forward', 'move') and q.startswith('ffsm2::'):
             return self.expr(n['inner'][1])
+        if nm == 'fill' and q == 'ffsm2::fill' and len(n['inner']) == 3:
+            # ffsm2::fill(T& a, char v) { memset(&a, v, sizeof(a)); }  -- sizeof of an array member whose extent is a
+            # symbolic constant is that constant times the element size (the instantiated sizeof is the witness's)
+            body = self.ast.body_of(self.ast.definition_of(d))
+            if body is None or len(body.get('inner', [])) != 1 or 'memset' not in str(body):
+                raise Unsupported('ffsm2::fill no longer is a single memset')
+            a = n['inner'][1]
+            ea = self.expr(a)
+            ev = self.expr(n['inner'][2])
+            bound = self._array_bound_of(a)
+            if bound is not None:
+                return 'memset(%s, (int)%s, (size_t)%s * sizeof(%s[0]))' % (ea, ev, bound, self._lv(ea))
+            return 'memset(&%s, (int)%s, sizeof(%s))' % (self._lv(ea), ev, ea)
         if nm == 'memset':
             args = [self.expr(a) for a in n['inner'][1:]]
             return 'memset(%s)' % ', '.join(args)
